@@ -35,7 +35,7 @@ def run(ck, an, tier):
     _c14.s4(_R(ck, "C14:"), an)      # the book's own price selectors: liq_price(q) is acq_price(-q), NaN for a blank side - never a remembered price
     from rules import C12 as _c12, ledger as _l
     # a NaN imbalance weight (missing quote) is never "below the margin": the threshold test is the reviewed strict comparison on the weight as computed, so the leg reaches the Trade guards that reject it
-    _c12.run(_l._Only(_R(ck, "C12:"), {"threshold-strict", "no-other-skip", "no-skip-before-the-loop"}), an, "quick")
+    _c12.run(_l._Only(_R(ck, "C12:"), {"threshold-strict", "no-other-skip", "no-skip-before-the-loop", "no-loop-exit"}), an, "quick")
     _c14.s1(_R(ck, "C14:"), an)      # a quote that arrives with a missing side blanks that side of the book (the book holds the last quote as given)
 
 
